@@ -1,7 +1,12 @@
 META = {
-    "assumptions": ["allocation failure out of scope (--no-malloc-may-fail)"],
-    "outside": ["completeness of a whole e2fsck -fn run (block ownership, bitmaps and counts, link counts, reachability, checksums): "
-                "only three self-contained detectors are decided",
+    "assumptions": ["allocation failure out of scope (--no-malloc-may-fail)",
+                    "fix_problem is stubbed to record and answer no (e2fsck -n); the protocol 'no => exit status != 0 unless PR_NO_OK' is decided in C01/fixproblem"],
+    "outside": ["completeness of a whole e2fsck -fn run (block ownership, link counts, reachability, bitmap and count agreement): "
+                "only self-contained detectors are decided",
+                "htree: three-level trees (update_parents over interior nodes), siphash (hash stored in the dirent), casefolded / encrypted "
+                "directories, checksummed nodes (dx tail); the hash function itself (C15)",
+                "pass 5: the bitmap checksum primitive itself (C14) and the bitmap / count comparison",
+                "e2fsck_process_bad_inode: pass 1's device-inode and symlink sub-checks (symbolic verdicts here), and pass 1's decision to mark an inode bad",
                 ],
 }
 HARNESSES = []
@@ -69,12 +74,45 @@ HARNESSES.append(
          backends=["default", "kissat"],
          bound="one leaf block of 48 / 36 bytes (up to 4 / 3 entries) of an indexed directory, every byte symbolic; one symbolic 32-bit hash per "
                "entry position; stale dx_block slot symbolic; inode numbers / counts symbolic"))
+HR_UW = ["main.%d:50" % i for i in range(6)] + ["fix_problem.0:6", "update_parents.0:6", "htree_depth.0:3", "e2fsck_pass2.0:6", "e2fsck_pass2.1:3"]
+HARNESSES.append(
+    dict(name="htreerange", src="htreerange.c",
+         funcs=["e2fsck_pass2", "update_parents", "htree_depth"],
+         configs=[{"NB": 4}, {"NB": 2}],
+         unwind=5, unwindset=HR_UW,
+         backends=["default", "kissat"],
+         bound="one indexed directory of 2 / 4 blocks (root + 1 / 3 leaves, two-level tree); every collected fact of every block symbolic 32-bit"))
+HARNESSES.append(
+    dict(name="htreerange_leaf", src="htreerange.c", extra_src=["lib/ext2fs/dir_iterate.c"],
+         funcs=["e2fsck_pass2", "check_dir_block", "update_parents", "htree_depth", "check_name", "ext2fs_get_rec_len"],
+         cut_statics={"e2fsck/pass2.c": ["parse_int_node"]},
+         configs=[{"NB": 3, "BLK": 36, "WITH_LEAF": None}],
+         unwind=5, unwindset=HR_UW + ["ref_scan.0:14", "ext2fs_dirhash2.0:14", "ext2fs_read_dir_block4.0:50", "check_dir_block.0:6",
+                                      "check_name.0:42", "strncmp.0:4"],
+         backends=["default", "kissat"],
+         bound="root + 2 leaves; leaf 1 is a 36-byte block (up to 3 entries), every byte symbolic, one symbolic hash per entry position, "
+               "run through the real check_dir_block; all other facts symbolic"))
+HARNESSES.append(
+    dict(name="htreenode", src="htreenode.c",
+         funcs=["parse_int_node"],
+         configs=[{"BLK": 40, "BLOCKCNT": 1, "NBK": 4}, {"BLK": 56, "BLOCKCNT": 0, "NBK": 3},
+                  {"BLK": 48, "BLOCKCNT": 1, "NBK": 5, "_tier": "thorough"}, {"BLK": 64, "BLOCKCNT": 0, "NBK": 4, "_tier": "thorough"}],
+         unwind=5, unwindset=["main.%d:70" % i for i in range(16)] + ["parse_int_node.0:7"],
+         backends=["default", "kissat"],
+         bound="one index node of 40 bytes (interior, 4 entries) / 56 bytes (root, 3 entries) [thorough: 48 / 64 bytes, 5 / 4 entries], every byte symbolic; directory of 4 / 3 [5 / 4] blocks, "
+               "every prior fact of every block symbolic"))
 MANIFEST = {
     "text": "Kernel-level slice (partial). Detector completeness against an independent format predicate, bounded-exhaustive: every extent header "
             "violating (magic, entries <= max, max entries fit the node) is rejected by ext2fs_extent_header_verify for every node size; every "
             "first/second directory entry that is not '.'(self) / '..'(non-zero inode) makes check_dot / check_dotdot raise a problem, and with the "
-            "answer 'no' they modify nothing. Completeness of a whole e2fsck -fn run is outside.",
-    "note": "Trusted: CBMC's C semantics, the harness's restatement of the on-disk format. Added: ext2fs_check_desc decided exactly (error and error "
-            "code) against an independent placement predicate on 2-3 groups with the real reserve/backup-location code and bit-array bitmap; the "
-            "dirent validity test inside the real check_dir_block decided exactly against the format's tiling predicate under -n.",
+            "answer 'no' they modify nothing; ext2fs_check_desc decided exactly on 2-3 groups; the dirent tiling test of check_dir_block decided exactly. "
+            "htree chain: check_dir_block records exactly min/max of the live entries' hashes of a leaf (htreeleaf), parse_int_node raises every node "
+            "problem and records exactly the range the index assigns to each block (htreenode), the end of e2fsck_pass2 reports exactly the leaves "
+            "out of range / unreferenced / doubly referenced / at the wrong depth (htreerange), and composed from the bytes of a leaf (htreerange_leaf). "
+            "Both pass-5 bitmap checksum detectors report exactly the initialised bitmaps whose checksum fails, over the right bit range (bmcsum). "
+            "e2fsck_process_bad_inode raises every field problem exactly when the on-disk field violates its format rule, on a fully symbolic inode "
+            "(badinode). Completeness of a whole e2fsck -fn run is outside.",
+    "note": "Trusted: CBMC's C semantics, the harness's restatement of the on-disk format, fix_problem answering no (protocol: C01). "
+            "parse_int_node is cut in htreeleaf / htreerange_leaf and decided separately in htreenode; hash and checksum primitives are stubs "
+            "with symbolic results (decided in C15 / C14).",
 }
